@@ -65,8 +65,10 @@ Print Assumptions c06_impl_block_header.
 
 (** What a forwarding method does (mini-semantics of Proofs/Sem.v, Sem2.v): evaluating its body with the
     method's parameters bound positionally to the caller's arguments performs exactly one call — of method
-    [m] on what [self.as_ref()] ([.as_ref()] / [.borrow()]) reaches, or of [<T::Target as I<T>>::m] with the
-    caller's [&Impl<T>] first — passing the caller's arguments 0..n-1 in declared order, awaited iff async.
+    [m] on what [self.as_ref()] / [self.into_inner()] ([.as_ref()] / [.borrow()]) reaches, of
+    [<T::Target as I<T>>::m], or of method [m] of the [dyn I<T>] obtained from [T] by [as_ref] / [borrow], the
+    last two with the caller's [&Impl<T>] first — passing the caller's arguments 0..n-1 in declared order, awaited
+    iff async. [c06_expected_event] is defined for every delegation kind ([c06_semantics_total]).
     (Hypotheses: the user's parameter names are distinct and none is [self] — rustc rejects anything else.) *)
 Theorem c06_forwarding_semantics : forall a ca s ev,
   NoDup (typed_names s) -> ~ In "self"%string (typed_names s) ->
@@ -75,6 +77,10 @@ Theorem c06_forwarding_semantics : forall a ca s ev,
     [TG Brace (c06_call a ca s ++ (if s_async s then [pc "."; TId "await"] else []))] = Some ev.
 Proof. exact eval_c06_call. Qed.
 Print Assumptions c06_forwarding_semantics.
+
+Theorem c06_semantics_total : forall a s, exists ev, c06_expected_event a s = Some ev.
+Proof. exact c06_expected_event_total. Qed.
+Print Assumptions c06_semantics_total.
 
 (** The predicate the checker evaluates on the implementation's output holds of every model expansion. *)
 Theorem c06_view_sound : forall v attr i items,
